@@ -36,7 +36,8 @@ pub const INFO: Info = Info {
            single-row class, one class empty, duplicated rows, -0.0 entries; row order: identity, random permutations, and ALL \
            permutations for n <= 4 (quick) / 6 (thorough); non-trivial = both classes present and p >= 2. \
            scorepsms: 1..80 (quick) / 400 PSM feature records with realistic ranges (finite poisson <= 0), large and small sets, \
-           constant charge/rank columns, ion mobility present or all zero, two decoys only; variants that must fall back: one class empty, \
+           constant charge/rank columns, ion mobility present or all zero, two decoys only; a default-on family `nonfinite-feature-guarded` (fittable sets of 40..70 records in which 1..3 records carry poisson in {-inf,+inf,NaN,2.5,1.0} or \
+           delta_rt_model / delta_ims_model in {+inf,-inf,negative,>1}: the guards of the feature transform must replace them, fit expected); variants that must fall back: one class empty, \
            NaN/inf in one field, ln_1p argument below -1, all records identical, single decoy (KDE bandwidth 0); non-trivial = both classes present. \
            Default-on small streams of the known-finding families (exactly singular PSD x 1e9/1e12; overall mean orthogonal to the class-mean \
            difference; all features of order 1e-9) and of two observation families (block-diagonal SPD: spurious solver failure; forced \
@@ -722,6 +723,7 @@ fn gen_psms(rng: &mut Rng, tier: Tier, emit: &mut dyn FnMut(Case)) {
     let quick = tier == Tier::Quick;
     let reps = if quick { 25 } else { 400 };
     let nmax = if quick { 80 } else { 400 };
+    let mut guarded_budget = if quick { 4 } else { 60 };
     for _ in 0..reps {
         let n = 4 + rng.below(nmax - 3);
         let with_ims = rng.chance(1, 3);
@@ -745,6 +747,48 @@ fn gen_psms(rng: &mut Rng, tier: Tier, emit: &mut dyn FnMut(Case)) {
             }
             rng.shuffle(&mut small);
             emit(Case::new(req_psms(&small)).tag("scorepsms").tag("realistic").tag("small-set"));
+        }
+        // nonfinite-feature-guarded: an ordinary, clearly fittable set in which 1..3 records carry a value
+        // that the feature transform of score_psms guards (poisson: `x if x.is_finite() => x, _ => 3.5`
+        // on ln_1p(-poisson); delta_rt_model / delta_ims_model: clamp(0.001, 0.999) before sqrt).
+        // The guard replaces the value, so the model must be fitted and every score finite.
+        if guarded_budget > 0 {
+            guarded_budget -= 1;
+            for variant in 0..14usize {
+                let n = 40 + rng.below(30);
+                let ims = with_ims || variant >= 9;
+                let mut set: Vec<Psm> = (0..n).map(|i| draw_psm(rng, i % 3 == 0, ims)).collect();
+                rng.shuffle(&mut set);
+                let cnt = 1 + rng.below(3);
+                for _ in 0..cnt {
+                    let k = rng.below(n);
+                    match variant {
+                        0 => set[k].poisson = f64::NEG_INFINITY,
+                        1 => set[k].poisson = f64::INFINITY,
+                        2 => set[k].poisson = f64::NAN,
+                        3 => set[k].poisson = 2.5, // ln_1p(-2.5) = NaN
+                        4 => set[k].poisson = 1.0, // ln_1p(-1) = -inf
+                        5 => set[k].delta_rt_model = f32::INFINITY,
+                        6 => set[k].delta_rt_model = f32::NEG_INFINITY,
+                        7 => set[k].delta_rt_model = -0.5, // sqrt would be NaN without the clamp
+                        8 => set[k].delta_rt_model = 7.0,
+                        9 => set[k].delta_ims_model = f32::INFINITY,
+                        10 => set[k].delta_ims_model = f32::NEG_INFINITY,
+                        11 => set[k].delta_ims_model = -0.25,
+                        12 => {
+                            set[k].poisson = f64::NEG_INFINITY;
+                            set[k].delta_rt_model = f32::INFINITY;
+                        }
+                        _ => set[k].poisson = -1e300, // finite but huge: ln_1p(1e300) = 690.8, no guard needed
+                    }
+                }
+                emit(Case::new(req_psms(&set))
+                    .tag("scorepsms")
+                    .tag("nonfinite-feature-guarded")
+                    .tag_if(variant <= 4 || variant == 12, "guarded-poisson")
+                    .tag_if((5..=8).contains(&variant) || variant == 12, "guarded-delta-rt")
+                    .tag_if((9..=11).contains(&variant), "guarded-delta-ims"));
+            }
         }
         // two decoys among targets
         {
